@@ -161,6 +161,8 @@ class VirtRig:
     """One execution of Lab.run_tasks on a configuration under a schedule."""
 
     HANG_POLLS = 6
+    WATCHDOG_S = 4.0
+    hangs_seen = 0
 
     def __init__(self, cfg: dict, schedule: list, *, shape_seed: int = 0, beh: Optional[dict] = None,
                  int_lines: Optional[list] = None, count_lines: bool = False, storage=None, default_policy: str = 'finish',
@@ -498,14 +500,25 @@ class VirtRig:
             try:
                 if tracer:
                     sys.settrace(tracer)
+                # a coordinator that spins without ever calling into the runner emits no events at all: wall-clock
+                # watchdog (the run normally takes milliseconds; the verdict is "hang", decided like any other hang)
+                def _alarm(signum, frame):
+                    raise RigHang('no progress: run_tasks did not finish')
+                old_alarm = signal.signal(signal.SIGALRM, _alarm)
+                signal.setitimer(signal.ITIMER_REAL, VirtRig.WATCHDOG_S)
                 try:
                     res = lab.run_tasks(req, bust_cache=cfg['bust'], disable_progress=True, disable_top=True)
                 finally:
+                    signal.setitimer(signal.ITIMER_REAL, 0)
+                    signal.signal(signal.SIGALRM, old_alarm)
                     if tracer:
                         sys.settrace(None)
                 outcome = {'e': 'outcome', 'kind': 'return', 'exc': '', 'cause': '',
                            'keys': [k.tid for k in res.keys()], 'vals': [v for v in res.values()]}
             except RigHang:
+                VirtRig.hangs_seen += 1
+                if VirtRig.hangs_seen >= 8:
+                    VirtRig.WATCHDOG_S = 1.0        # many hangs already: do not spend minutes on the rest
                 outcome = {'e': 'outcome', 'kind': 'hang', 'exc': 'RigHang', 'cause': '', 'keys': [], 'vals': []}
             except BaseException as ex:   # noqa
                 name, cause = D.exc_info(ex)
